@@ -211,6 +211,15 @@ pub mod ffi {
     impl Pri {
         #[diplomat::attr(auto, comparison)]
         pub fn cmp(self, o: Pri) -> core::cmp::Ordering { self.n.cmp(&o.n) }
+        // arithmetic on a VALUE type: the C++ backend derives the compound assignments (+=, -=, *=, /=) from these
+        #[diplomat::attr(auto, add)]
+        pub fn plus(self, o: Pri) -> Pri { Pri { n: self.n.wrapping_add(o.n) } }
+        #[diplomat::attr(auto, sub)]
+        pub fn minus(self, o: Pri) -> Pri { Pri { n: self.n.wrapping_sub(o.n) } }
+        #[diplomat::attr(auto, mul)]
+        pub fn times(self, o: Pri) -> Pri { Pri { n: self.n.wrapping_mul(o.n) } }
+        #[diplomat::attr(auto, div)]
+        pub fn over(self, o: Pri) -> Pri { Pri { n: if o.n == 0 { 0 } else { self.n.wrapping_div(o.n) } } }
     }
     #[diplomat::opaque]
     pub struct It(pub Vec<u8>, pub usize);
@@ -264,6 +273,10 @@ def operators_leg(rep, wd):
     for marker, cop in (("add_assign", "+"), ("sub_assign", "-"), ("mul_assign", "*")):
         assert ops["arith"][marker] == cop + "="
         L.append("        { auto c = Ver::mk((int32_t)A); (*c) %s= (*b); CK(c->get() == %s); CK(b->get() == (int32_t)B); }\n" % (cop, w32(cop)))
+    # value types: the binary operator and the DERIVED compound assignment (receiver and argument must not be swapped: - and / show it)
+    for cop in ("+", "-", "*"):
+        L.append("        CK((pa %s pb).n == %s);\n        { Pri c{(int32_t)A}; c %s= pb; CK(c.n == %s); CK(pb.n == (int32_t)B); }\n" % (cop, w32(cop), cop, w32(cop)))
+    L.append("        if (B != 0 && !(A == V[0] && B == -1)) { CK((pa / pb).n == (int32_t)(A / B)); Pri c{(int32_t)A}; c /= pb; CK(c.n == (int32_t)(A / B)); }\n")
     L.append("        for (size_t i = 0; i < 5; i++) { auto x = (*a)[i]; CK(x.has_value() == (i < 3)); if (i < 3) CK(*x == (uint8_t)((uint8_t)(int32_t)A + i)); }\n    }\n")
     L.append("    for (long long A : {0LL, 1LL, 5LL}) { long long B = 0; auto c = Coll::mk((uint8_t)A); std::vector<uint8_t> got; for (auto x : *c) got.push_back(x);\n"
              "        CK(got.size() == (size_t)A); for (size_t i = 0; i < got.size(); i++) CK(got[i] == (uint8_t)(3 * i)); }\n")
@@ -293,6 +306,8 @@ def operators_leg(rep, wd):
 
 
 def usable(sig):
+    if any(p["k"] == "strs" or (p["k"] == "opt" and p["t"]["k"] == "strs") for p in sig["params"]):
+        return False        # lists of strings are driven through the C leg (C01) only
     if any(p["k"] == "trait" for p in sig["params"]):
         return False        # the C++ backend declares no trait support: `impl Trait` parameters belong to the C leg (C01) only
     has_utf8 = any(p["k"] == "str" and p["enc"] == "utf8" for p in sig["params"])
